@@ -474,7 +474,7 @@ def run(ctx):
     for name, inits, maxd, budget in fams:
         if ctx.only and not any(name.startswith(o) for o in ctx.only):
             continue
-        dl = time.time() + (budget if not q else 60)
+        dl = time.time() + (budget if not q else 150)
         info = bfs.explore(acc, SPEC, inits, name, max_depth=maxd, deadline=dl)
         ctx.bounds[name] = dict(inits=len(inits), max_depth=maxd, **info)
     ctx.extra["exhaustive_note"] = ("fixpoint=true families cover histories of every length over the alphabet; "
